@@ -1358,7 +1358,7 @@ pub fn run_case(
                 &mut fresh,
                 &built,
                 std::slice::from_ref(&case.runs[k - 1]),
-                mk_sched(k - 1),
+                mk_sched(k),
                 true,
             );
             drop(fresh);
@@ -1377,7 +1377,14 @@ pub fn run_case(
                     }
                 }
                 let _ = catch_unwind(AssertUnwindSafe(move || drop(surplus)));
-                let (d, left) = drive_carry(&mut graph, &built, std::slice::from_ref(rs), mk_sched(i), true, carry_in);
+                // the last run executes the schedule that its reference (the same run on the
+                // fresh graph) recorded: same external events in the same order
+                let sched: Box<dyn Scheduler> = if i + 1 == k {
+                    Box::new(crate::sched::ListScheduler::new(fresh_drive.schedule.clone()))
+                } else {
+                    mk_sched(i)
+                };
+                let (d, left) = drive_carry(&mut graph, &built, std::slice::from_ref(rs), sched, true, carry_in);
                 carry = left;
                 drives.push(d);
             }
